@@ -108,3 +108,15 @@ package gitstore
 //@   ensures err == nil ==> refSet == upd(old(refSet), refName, false) && refTip == old(refTip)
 
 //@   ensures faults == old(faults) + ite(err != nil, 1, 0)
+//@ spec objPayload(id Hash) Hash
+//@ spec objSig(id Hash) Hash
+//@ func ext:(pkg/gitstore.Storer).GetObjectSignature -> (payload, sig, err)
+//@   trusted
+//@   assigns ghost faults
+//@   ensures err == nil ==> payload == objPayload(objectID) && sig == objSig(objectID)
+//@   ensures faults == old(faults) + ite(err != nil, 1, 0)
+
+//@ func ext:(pkg/gitstore.Storer).LookupConfig -> (value, ok, err)
+//@   trusted
+//@   assigns ghost faults
+//@   ensures faults == old(faults) + ite(err != nil, 1, 0)
